@@ -309,7 +309,11 @@ def main():
                     continue
                 seen.add(key)
                 viols.append(v)
-        for kk, (k, n) in sorted(known_hits.items()):
+        # every listed finding of this property is announced, whether or not this run met it
+        for k in known.get("findings", []):
+            if k["property"] != prop:
+                continue
+            n = sum(c for (kk, c) in known_hits.values() if kk is k)
             print("KNOWN-FINDING: property=%s %s [class=%s disc=%s] (seen %d times in this run)" % (k["property"], k["what"], k["class"], k.get("disc", ""), n))
         os.makedirs(os.path.join(VERIF, "replays"), exist_ok=True)
         for v in viols:
